@@ -34,6 +34,7 @@ func main() {
 	replay := flag.String("replay", "", "replay file: re-evaluate a single obligation")
 	list := flag.Bool("list", false, "list obligations")
 	dump := flag.String("dump", "", "debug dump: locks")
+	extra := flag.String("extra", "", "JSON file whose content is embedded in the evidence as coverage.seeded_replay")
 	flag.Parse()
 	start := time.Now()
 	seed := 0
@@ -127,6 +128,14 @@ func main() {
 		if *list {
 			for _, ob := range c.obs {
 				fmt.Printf("%-12s %-9s %-70s %s %s\n", ob.Status, ob.Rule, ob.Key, ob.Pos, ob.Msg)
+			}
+		}
+		if *extra != "" {
+			if b, err := os.ReadFile(*extra); err == nil {
+				var v interface{}
+				if json.Unmarshal(b, &v) == nil {
+					loadInfo["seeded_replay"] = v
+				}
 			}
 		}
 		if code := c.finish(*verif, seed, start, loadInfo); code > exit {
